@@ -32,6 +32,7 @@ impl RequestHandler<DocumentSymbolRequest> for DocumentSymbolRequestHandler {
                         codegen,
                         filename: file.file.name(),
                         recurse: false,
+                        import_stack: vec![],
                     };
                     let docsyms = emitter.emit_document_symbols(&file.tokens, None);
                     let document_symbols = docsyms
@@ -60,6 +61,7 @@ impl RequestHandler<WorkspaceSymbol> for WorkspaceSymbolHandler {
                         codegen,
                         filename: file.file.name(),
                         recurse: true,
+                        import_stack: vec![tree.main_file.clone()],
                     };
                     let docsyms = emitter.emit_document_symbols(&file.tokens, None);
                     let workspace_symbols = docsyms
@@ -131,6 +133,8 @@ struct DocSymEmitter<'a> {
     codegen: Arc<Mutex<CodegenContext>>,
     filename: &'a str,
     recurse: bool,
+    /// The files that are being visited (the chain of imports that has led to the current file)
+    import_stack: Vec<std::path::PathBuf>,
 }
 
 impl<'a> DocSymEmitter<'a> {
@@ -162,13 +166,18 @@ impl<'a> DocSymEmitter<'a> {
                 ..
             } => {
                 let mut result = vec![];
-                if self.recurse {
+                // (a file that imports itself, directly or through others, is an error the assembler reports; following
+                // such an import here would never end)
+                if self.recurse && !self.import_stack.contains(resolved_path) {
                     if let Some(file) = self.tree.try_get_file(&resolved_path) {
+                        let mut import_stack = self.import_stack.clone();
+                        import_stack.push(resolved_path.clone());
                         let emitter = DocSymEmitter {
                             tree: self.tree,
                             codegen: self.codegen.clone(),
                             filename: file.file.name(),
                             recurse: self.recurse,
+                            import_stack,
                         };
                         result.extend(emitter.emit_document_symbols(&file.tokens, None));
                     }
